@@ -490,7 +490,8 @@ func runC13(c *core.Ctx) {
 				c.Failf("rejected_valid", "AddWithCount(%v, %v) of a trackable value and non-negative weight returned %v (MaxIndexableValue %v)", v, w, err, maxV)
 				return
 			}
-			if got := ck.GetCount(); !(got >= cnt) || (w == 0 && got != cnt) {
+			// (the weights used here are outside the exactness budget: totals of the sparse store may differ in the last bits between two calls)
+			if got := ck.GetCount(); !(got >= cnt*(1-1e-12)) || (w == 0 && math.Abs(got-cnt) > 1e-12*cnt) {
 				c.Failf("accepted_but_wrong_count", "AddWithCount(%v,%v): count %v -> %v", v, w, cnt, got)
 			}
 		}
